@@ -187,6 +187,7 @@ fn budget(prop: &str, tier: &str, seed: u64, scale: f64) -> Budget {
             sweeps.push(sweeps::structured_data_fills("C05"));
             if checked || !quick {
                 sweeps.push(sweeps::c05_huge_positions());
+                sweeps.push(sweeps::c05_giant_segments());
             }
             // all enumerations on both build profiles (C05 is stated for both)
             sweeps.push(sweeps::c05_string_path_streams());
